@@ -312,6 +312,8 @@ pub struct Interp<'l> {
     pub tagged_null_payload_seen: bool,
     /// set when a *mapping* node carries a tag naming a variant of the expected enum
     pub tagged_map_payload_seen: bool,
+    /// set when a *scalar* node carries a tag naming a variant of the expected enum (`!Variant payload`)
+    pub tagged_scalar_payload_seen: bool,
     /// Some(context) while interpreting a sub-document that the crate deserializes
     /// from a recorded buffer ("tagged-variant" payload, "map-key"). Only used to
     /// give surplus elements inside such a sub-document their own reason class.
@@ -649,7 +651,10 @@ impl Interp<'_> {
                 TagKind::Name(t) if t == e.name() => self.by_name(e, value),
                 TagKind::Name(t) => match e.index_of(&t) {
                     None => Expect::MustErr("tag-names-other-enum"),
-                    Some(i) => match &e.variants[i] {
+                    Some(i) => match {
+                        self.tagged_scalar_payload_seen = true;
+                        &e.variants[i]
+                    } {
                         VariantTy::Unit => match nullness(value, *style, None) {
                             Nullness::Null => Expect::MustBe(TVal::variant(i, TVal::Unit)),
                             Nullness::Ambiguous => Expect::Unspecified("ambiguous-null"),
